@@ -34,7 +34,7 @@ class Job:
                  timeout=900, expect=(), reach=0, bounded=None, functions=(), files=(),
                  entry='harness', mem_gb=24, extra_cbmc=(), backend='idn2', note='',
                  no_dfcc=False, nondet_static=False, assumptions=(), finder=None,
-                 solvers=('cadical', 'minisat2'),
+                 solvers=('cadical', 'minisat2'), extra_sources=(), replace_candidates=(),
                  slice_formula=False):
         self.__dict__.update(locals())
         del self.__dict__['self']
@@ -77,6 +77,7 @@ class JobResult:
         self.seconds = {}
         self.cmds = []
         self.backend = ''
+        self.replaced = []
         self.log = ''
 
     @property
@@ -164,7 +165,7 @@ def run_job(job, workdir, keep=False, extra_defs=(), trace_property=None):
             return r
     # -- 1. compile
     cmd = ['goto-cc'] + BASEDEFS + list(job.defines) + list(extra_defs) + INCDIRS + \
-          ['--function', job.entry, harness, '-o', gb0]
+          ['--function', job.entry, harness] + [os.path.join(REPO, x) for x in job.extra_sources] + ['-o', gb0]
     rc, out, err, s = sh(cmd, timeout=300)
     r.cmds.append(' '.join(cmd)); r.seconds['goto-cc'] = round(s, 2)
     if rc != 0:
@@ -186,7 +187,15 @@ def run_job(job, workdir, keep=False, extra_defs=(), trace_property=None):
         cmd = ['goto-instrument', '--no-malloc-may-fail', '--dfcc', job.entry]
         if job.enforce:
             cmd += ['--enforce-contract', job.enforce]
-        for g in job.replace:
+        repl = list(job.replace)
+        if job.replace_candidates:
+            # replace exactly those candidates the code actually calls (a call to a validator that must
+            # not be called is then checked against that validator's contract, whose precondition is false)
+            rc0, out0, err0, _ = sh(['goto-instrument', '--list-undefined-functions', cur], timeout=120)
+            called = set(l.strip() for l in out0.split('\n'))
+            repl += [g for g in job.replace_candidates if g in called and g not in repl]
+        r.replaced = repl
+        for g in repl:
             cmd += ['--replace-call-with-contract', g]
         if job.loops:
             cmd += ['--apply-loop-contracts']
@@ -244,6 +253,7 @@ def run_job(job, workdir, keep=False, extra_defs=(), trace_property=None):
             r.reach.append(o)
         else:
             r.obligations.append(o)
+    annotate_clauses(job, r, extra_defs)
     if not keep:
         for f in (gb0, gb1, gb2):
             try:
@@ -276,6 +286,67 @@ def run_job(job, workdir, keep=False, extra_defs=(), trace_property=None):
         return r
     r.status = 'failed' if r.failed else 'proved'
     return r
+
+
+def split_clauses(text, kw):
+    out = []
+    i = 0
+    while True:
+        i = text.find(kw + '(', i)
+        if i < 0:
+            break
+        j = i + len(kw) + 1
+        depth = 1
+        while j < len(text) and depth:
+            depth += text[j] == '('
+            depth -= text[j] == ')'
+            j += 1
+        out.append(' '.join(text[i + len(kw) + 1:j - 1].split()))
+        i = j
+    return out
+
+
+def annotate_clauses(job, r, extra_defs):
+    """give '<fn>.postcondition.N' obligations the text of the N-th ensures clause of the enforced
+    function's contract (contracts are written with macros, so CBMC's location is one line)"""
+    if not job.enforce:
+        return
+    try:
+        cmd = ['gcc', '-E', '-P', '-x', 'c'] + BASEDEFS + list(job.defines) + list(extra_defs) + INCDIRS + \
+              ['-D__CPROVER_requires(...)=@REQ(__VA_ARGS__)', '-D__CPROVER_ensures(...)=@ENS(__VA_ARGS__)',
+               '-D__CPROVER_assigns(...)=@ASG(__VA_ARGS__)', '-D__CPROVER_frees(...)=@FRE(__VA_ARGS__)',
+               '-D__CPROVER_loop_invariant(...)=@INV(__VA_ARGS__)', '-D__CPROVER_decreases(...)=@DEC(__VA_ARGS__)',
+               os.path.join(VERIF, job.harness)]
+        rc, out, err, _ = sh(cmd, timeout=60)
+        # the contract-bearing declaration of the enforced function: "<fn> (...)" followed by @REQ/@ENS ... ';'
+        import re as _re
+        best = None
+        for m in _re.finditer(r'\b%s\s*\(' % _re.escape(job.enforce), out):
+            k = m.end(); depth = 1
+            while k < len(out) and depth:
+                depth += out[k] == '('; depth -= out[k] == ')'; k += 1
+            rest = out[k:k + 200000]
+            if rest.lstrip().startswith('@'):
+                end = rest.find(';')
+                # clauses contain no ';' at depth 0 except the terminator; find terminator at depth 0
+                d = 0
+                for q, ch in enumerate(rest):
+                    d += ch == '('; d -= ch == ')'
+                    if ch == ';' and d == 0:
+                        end = q; break
+                best = rest[:end]
+                break
+        if not best:
+            return
+        ens = split_clauses(best, '@ENS')
+        for o in r.obligations:
+            m = _re.match(r'.*\.postcondition\.(\d+)$', o['name'])
+            if m and o['function'] == job.enforce or (m and job.enforce in o['name']):
+                n = int(m.group(1))
+                if 1 <= n <= len(ens):
+                    o['description'] = 'ensures #%d of %s: %s' % (n, job.enforce, ens[n - 1][:700])
+    except Exception:
+        return
 
 
 def _bounded_is_obligation(self):
